@@ -269,8 +269,8 @@ func c02Run(c *fw.Ctx) {
 
 func init() {
 	fw.Register(&fw.Check{
-		ID: "C02",
-		Rule: "each case: random extended grammars (guarded alternatives; optionals, nested choices, +/* lists with and without separators, nullable nonterminals; '-> Node' annotations on nonterminal definitions, on rules, on nested parts, on alternatives of nested choices, on list elements, on optional parts, on empty rules), half with fixWhitespace; without fixWhitespace every sequence ends with a token so that 'first to last token' is unambiguous. Grammars the compiler rejects (conflicts etc.) are discarded; the first candidate of every case is a designed grammar (twin lists differing only in the arrow name, a nonterminal nullable through an action inside an annotated rule, a no-eoi input with an in-rule arrow) that must compile. Sentences are sampled top-down from the extended grammar together with the expected events (post-order over rule applications, in-rule annotations inner-first/left-to-right then the rule-level node; node = first..last token of its yield, empty node at the following token), rendered with irregular whitespace, and the recorded listener sequence of the generated parser must be identical (type names and byte ranges). Grammar non-trivial/distinct: >=3 node types and >=5 sentences with >=3 events compared",
+		ID:          "C02",
+		Rule:        "each case: random extended grammars (guarded alternatives; optionals, nested choices, +/* lists with and without separators, nullable nonterminals; '-> Node' annotations on nonterminal definitions, on rules, on nested parts, on alternatives of nested choices, on list elements, on optional parts, on empty rules), half with fixWhitespace; without fixWhitespace every sequence ends with a token so that 'first to last token' is unambiguous. Grammars the compiler rejects (conflicts etc.) are discarded; the first candidate of every case is a designed grammar (twin lists differing only in the arrow name, a nonterminal nullable through an action inside an annotated rule, a no-eoi input with an in-rule arrow) that must compile. Sentences are sampled top-down from the extended grammar together with the expected events (post-order over rule applications, in-rule annotations inner-first/left-to-right then the rule-level node; node = first..last token of its yield, empty node at the following token), rendered with irregular whitespace, and the recorded listener sequence of the generated parser must be identical (type names and byte ranges). Grammar non-trivial/distinct: >=3 node types and >=5 sentences with >=3 events compared",
 		Assumptions: []string{"the generated lexer tokenizes space-separated literals correctly (C11)", "conflict-freeness taken from the compiler (C03), hence the sampled derivation is the unique one"},
 		Cases: func(tier string) int {
 			if tier == "thorough" {
